@@ -21,6 +21,14 @@ impl PartialEq for DataValue {
         ensures r == veq(*self, *other),
     { unimplemented!() }
 }
+/// the printed form of a value (Display): uninterpreted; equal values print alike, the converse does not hold
+pub uninterp spec fn vstr(a: DataValue) -> Seq<char>;
+impl DataValue {
+    #[verifier::external_body]
+    pub fn to_string(&self) -> (r: String)
+        ensures r@ == vstr(*self),
+    { unimplemented!() }
+}
 impl vstd::std_specs::cmp::PartialEqSpecImpl for DataValue {
     open spec fn obeys_eq_spec() -> bool { true }
     open spec fn eq_spec(&self, other: &Self) -> bool { veq(*self, *other) }
